@@ -15,6 +15,15 @@ if [ "$what" = main ] || [ "$what" = all ]; then
   mv ../modelrun.new ../modelrun
   cd ../..
 fi
+if [ "$what" = num ] || [ "$what" = all ]; then
+  mkdir -p build/num
+  cd build/num
+  timeout 600 coqc -Q ../../coq PGM ../../coq/Extract/ExtractNum.v >extract.log 2>&1 || { cat extract.log; exit 1; }
+  cp ../../ocaml/num/*.ml .
+  timeout 600 ocamlfind ocamlopt -w -a num_model.mli num_model.ml num_ext.ml num_main.ml -o ../numrun.new 2>build.log || { cat build.log; exit 1; }
+  mv ../numrun.new ../numrun
+  cd ../..
+fi
 if [ "$what" = cdp ] || [ "$what" = all ]; then
   cd build/cdp
   rm -f ../cdprun
